@@ -49,4 +49,6 @@ func verifRU(s string) string                                  { panic("symbolic
 func verifJoinIf(acc string, c bool, piece, sep string) string { panic("symbolic only") }
 func verifCallCount(fn string) int                             { panic("symbolic only") }
 func verifDisjointHeaps(a, b interface{}) bool                 { panic("symbolic only") }
+func verifValidURLOk(raw string) bool                          { panic("symbolic only") }
+func verifValidURLOut(raw string) string                       { panic("symbolic only") }
 func verifSameObject(a, b interface{}) bool                    { panic("symbolic only") }
